@@ -558,6 +558,7 @@ def random_script(rng: random.Random, ident: str, length: int, *, leaf: bool, ba
     ops = []
     started = False
     last = None
+    held = True
     nlive_target = rng.randint(2, 5)
 
     def new():
@@ -592,13 +593,16 @@ def random_script(rng: random.Random, ident: str, length: int, *, leaf: bool, ba
                 continue
             if bad and rng.random() < 0.06:
                 ops.append(dict(op="bad", lay=lay))
-                if lay["k"] not in ("txt", "img") and rng.random() < 0.5:
+                let_go = lay["k"] not in ("txt", "img") and rng.random() < 0.5
+                if let_go:
                     ops.append(dict(op="release"))  # nobody holds the canvas of a failed frame
                 ops.append(dict(op="clear"))
             else:
+                let_go = False
                 ops.append(dict(op="redraw", lay=lay))
             last = lay
-        elif x < 0.66 and last is not None:
+            held = not let_go  # a released canvas cannot be passed again ("same" needs the object)
+        elif x < 0.66 and last is not None and held:
             ops.append(dict(op="same", lay=last))
         elif x < 0.70 and last is not None and last["k"] not in ("txt", "img") and wf(last, g.live, cols, rows):
             # a direct clear_images call, then a NEW canvas of the same (or a slightly changed) layout
@@ -610,6 +614,7 @@ def random_script(rng: random.Random, ident: str, length: int, *, leaf: bool, ba
                 nxt = last
             ops.append(dict(op="redraw", lay=nxt))
             last = nxt
+            held = True
         elif x < 0.715 and last is not None and wf(last, g.live, cols, rows):
             # the terminal is resized (size in cells unchanged): the next frame(s) are dropped by urwid,
             # then the resize is handled and the SAME canvas object is painted
@@ -632,6 +637,7 @@ def random_script(rng: random.Random, ident: str, length: int, *, leaf: bool, ba
             else:
                 ops.append(dict(op="same", lay=nxt))
             last = nxt
+            held = True
         elif x < 0.74:
             ops.append(dict(op="clear"))
         elif x < 0.77:
